@@ -732,3 +732,50 @@ def implied_by_path(pm, node, classify, atom):
         if v != want:
             return True
     return False
+
+
+class LinUnx(Exception):
+    pass
+
+
+def linform(e, lets=None, depth=0):
+    """an integer expression as a linear form {name: coefficient, "": constant} over parameters / `self.<field>`s: literals,
+    `+`, `-`, `saturating_sub` (read as `-`), casts, named locals (through `lets`, see local_inits - shadowing `let x = x + 1`
+    is followed in order by the caller). Raises LinUnx on anything else."""
+    e = peel(e)
+    while e.get("k") in ("DropTemps", "Use", "Cast") or (e.get("k") == "Block" and not e.get("stmts") and e.get("expr") is not None):
+        e = peel(e["e"] if e.get("k") != "Block" else e["expr"])
+    if depth > 8:
+        raise LinUnx("too deep")
+    lv = lit_value(e)
+    if isinstance(lv, int) and not isinstance(lv, bool):
+        return {"": lv}
+    k = e.get("k")
+    if k == "Field" and ekey(e["e"]).lstrip("&*") == "self":
+        return {e["name"]: 1, "": 0}
+    if k == "Path" and e.get("res_kind") == "Local":
+        if lets is not None and e["res"] in lets:
+            return linform(lets[e["res"]], lets, depth + 1)
+        return {e["res"]: 1, "": 0}
+    if k == "Unary" and e.get("op") == "Deref":
+        return linform(e["a"], lets, depth + 1)
+    if k == "Binary" and e["op"] in ("Add", "Sub"):
+        a, b = linform(e["a"], lets, depth + 1), linform(e["b"], lets, depth + 1)
+        sgn = 1 if e["op"] == "Add" else -1
+        out = dict(a)
+        for n, c in b.items():
+            out[n] = out.get(n, 0) + sgn * c
+        return out
+    if k == "MethodCall" and e["name"] in ("saturating_sub", "wrapping_sub", "saturating_add", "wrapping_add") and len(e["args"]) == 1:
+        a, b = linform(e["recv"], lets, depth + 1), linform(e["args"][0], lets, depth + 1)
+        sgn = -1 if e["name"].endswith("sub") else 1
+        out = dict(a)
+        for n, c in b.items():
+            out[n] = out.get(n, 0) + sgn * c
+        return out
+    raise LinUnx(ekey(e)[:50])
+
+
+def lin_eq(a, b):
+    keys = set(a) | set(b)
+    return all(a.get(k, 0) == b.get(k, 0) for k in keys)
